@@ -14,7 +14,7 @@ def StepOk (seen : List Nat) (y : State) (m : MState) (op : Op) (hint : Option W
 variable {seen : List Nat} {y : State} {m : MState}
 
 theorem step_ttl (h : Rel seen y m) (n : Nat) (hint : Option Who) : StepOk seen y m (.ttl n) hint :=
-  ⟨rfl, ⟨h.reach, h.g, h.sess, h.lis, h.owed, h.fan, h.cache, h.seen⟩⟩
+  ⟨rfl, ⟨h.reach, h.g, h.sess, h.lis, h.owed, h.fan, h.cache, h.seen, h.gate⟩⟩
 
 theorem step_bad (h : Rel seen y m) (hint : Option Who) : StepOk seen y m .bad hint :=
   ⟨rfl, h⟩
@@ -24,7 +24,7 @@ theorem step_policy (h : Rel seen y m) (u : Nat) (r : Bool) (hint : Option Who) 
   · simp only [sysStep]; split <;> rfl
   · simp only [sysStep]
     split
-    · exact ⟨h.reach, ⟨h.g.cap, h.g.ver, h.g.cnt, h.g.content⟩, h.sess, h.lis, h.owed, h.fan, h.cache, h.seen⟩
-    · exact ⟨h.reach, ⟨h.g.cap, h.g.ver, h.g.cnt, h.g.content⟩, h.sess, h.lis, h.owed, h.fan, h.cache, h.seen⟩
+    · exact ⟨h.reach, ⟨h.g.cap, h.g.ver, h.g.cnt, h.g.content⟩, h.sess, h.lis, h.owed, h.fan, h.cache, h.seen, h.gate⟩
+    · exact ⟨h.reach, ⟨h.g.cap, h.g.ver, h.g.cnt, h.g.content⟩, h.sess, h.lis, h.owed, h.fan, h.cache, h.seen, h.gate⟩
 
 end Notify.Bridge
